@@ -285,6 +285,59 @@ func runWalk(c *Ctx) {
 			"a vertex's value is recorded as `last seen` only after the walk has finished updating that vertex in this step", ternary(stale == "", "no later update in the same step", stale))
 	}
 
+	// ---------------- WALK: a routing assignment never depends on what the vertex held before. Vertices are shared
+	// by all the paths of a call (and a typed argument by every converter of that type), so the value a path routes in
+	// must replace the one an earlier path left behind.
+	{
+		nr := 0
+		for _, vs := range vstores {
+			f := vs.Parent()
+			if !inRes(f) {
+				continue
+			}
+			if src, isRoute := core.AsFieldLoad(vs.Val); !isRoute || src.Field != "Value" {
+				continue // not a routing assignment (e.g. the planner's zero stand-in for an input, decided by FAB)
+			}
+			fr, _ := core.AsFieldAddr(vs.Addr)
+			dest := core.Path(p.Bind(fr.Base))
+			old := ""
+			var reads func(v ssa.Value, d int) bool
+			reads = func(v ssa.Value, d int) bool {
+				if v == nil || d > 4 {
+					return false
+				}
+				if lf, ok := core.AsFieldLoad(v); ok && lf.Field == "Value" && lf.Owner == fr.Owner {
+					if core.Path(p.Bind(lf.Base)) == dest || core.Path(lf.Base) == core.Path(fr.Base) {
+						return true
+					}
+				}
+				switch x := v.(type) {
+				case *ssa.Call:
+					for _, a := range core.CallArgs(x.Common()) {
+						if reads(a, d+1) {
+							return true
+						}
+					}
+				case *ssa.UnOp:
+					return reads(x.X, d+1)
+				case *ssa.BinOp:
+					return reads(x.X, d+1) || reads(x.Y, d+1)
+				}
+				return false
+			}
+			for _, l := range p.ILits(vs.Block()) {
+				for _, v := range append([]ssa.Value{l.X, l.Y, l.Of}, l.Args...) {
+					if reads(v, 0) {
+						old = l.String()
+					}
+				}
+			}
+			nr++
+			c.R.Add("WALK", fmt.Sprintf("%s|%s.Value|not-conditional-on-old-value#%d", core.FuncName(f), fr.Owner, nr), core.FuncName(f), p.InstrPos(vs), old == "",
+				"whether the walk routes a value into a vertex does not depend on the value an earlier path left in that vertex", ternary(old == "", "no guard reads the old value", "guarded by "+old))
+		}
+	}
+
 	// ---------------- OUTMAP
 	{
 		var structVal ssa.Value
